@@ -17,6 +17,8 @@ Next == /\ l <= Len(Log)
         /\ Check("C07", "text/plain in the chain of a header with binary bytes and no mark", InChain(E.chain, "text/plain") => TextRef(E.raw))
         /\ Check("C07", "text header left unclassified", TextRef(E.raw) => Len(E.chain) > 1)
         /\ Check("C11", "charset of bare text/plain", E.chain[1] = "text/plain" => C11Holds(E.raw, E.cs))
+        \* sniffing also serves text/html and text/xml leaves; the generator marks the documents it built WITHOUT a declaration
+        /\ Check("C11", "charset of an undeclared text/html or text/xml leaf", (E.note = "undeclared-markup" /\ E.chain[1] \in {"text/html", "text/xml"}) => C11Holds(E.raw, E.cs))
         /\ l' = l + 1 /\ TLCSet(42, l + 1)
 Spec == Init /\ [][Next]_l
 Accepted == TLCGet(42) = Len(Log) + 1
